@@ -225,7 +225,9 @@ func paramNames(fn *ssa.Function, fc *FuncContract) []string {
 		return nil
 	}
 	var names []string
-	if fc.Decl.Recv != nil && len(fc.Decl.Recv.List) > 0 {
+	// (a function literal inside a method is written `func (r T) M$1(...)` in contracts, but has no receiver
+	// parameter of its own: the enclosing receiver is a captured variable)
+	if fc.Decl.Recv != nil && len(fc.Decl.Recv.List) > 0 && fn.Signature.Recv() != nil {
 		if len(fc.Decl.Recv.List[0].Names) > 0 {
 			names = append(names, fc.Decl.Recv.List[0].Names[0].Name)
 		} else {
@@ -489,6 +491,39 @@ func (e *Encoder) block(b *ssa.BasicBlock) {
 	for si, s := range b.Succs {
 		if e.back[[2]*ssa.BasicBlock{b, s}] {
 			e.loopBack(e.loops[s], b, si, st, pc)
+		}
+	}
+	// edges that leave a loop: its exit assertions
+	var exitLoops []*loopInfo
+	for _, li := range e.loops {
+		if li != nil && li.spec != nil && len(li.spec.Exits) > 0 {
+			exitLoops = append(exitLoops, li)
+		}
+	}
+	sort.Slice(exitLoops, func(i, j int) bool { return exitLoops[i].ord < exitLoops[j].ord })
+	for si, s := range b.Succs {
+		for _, li := range exitLoops {
+			inside := func(x *ssa.BasicBlock) bool { return x == li.header || li.body[x] }
+			if !inside(b) || inside(s) {
+				continue
+			}
+			env := e.envAt(st, b, nil)
+			epc := and(pc, edgeCond(e, b, s, si))
+			for _, ex := range li.spec.Exits {
+				if !e.clauseInMode(ex) {
+					continue
+				}
+				f, err := env.ElabBool(ex.E)
+				if err != nil {
+					e.errs = append(e.errs, fmt.Sprintf("loop %d exit %q: %v", li.ord, ex.Text, err))
+					continue
+				}
+				kind := fmt.Sprintf("loop-exit loop %d", li.ord)
+				if ex.Tag != "" {
+					kind += " " + ex.Tag
+				}
+				e.addObl(kind, ex.Text, epc, f)
+			}
 		}
 	}
 }
